@@ -435,9 +435,24 @@ Proof.
       (try lia; try apply cap_in_uint_intro; try (change (2 ^ 9) with 512); cbn [b_refs b_empty length]; lia).
     rewrite cap_bits_fit by (cbn [b_empty b_bits app length]; rewrite to_bits_length; lia).
     cbn [bind].
-    rewrite (cap_nf_uint v len) by (try lia; try exact Hv; cbn [b_refs b_empty length]; lia).
-    rewrite cap_bits_fit by
-      (cbn [b_empty b_bits app length]; rewrite ?app_length, ?to_bits_length; cbn [length]; lia).
+    assert (Hst : (if negb (len =? 0)
+                   then b_store_uint (mkB (b_bits (mkB (b_bits b_empty ++ [false; true]) (b_refs b_empty)) ++
+                                           to_bits (Z.to_nat 9) (Z.to_N len))
+                                          (b_refs (mkB (b_bits b_empty ++ [false; true]) (b_refs b_empty)))) v len
+                   else if negb (v =? 0) then Err EOverflow
+                   else Ok (mkB (b_bits (mkB (b_bits b_empty ++ [false; true]) (b_refs b_empty)) ++
+                                 to_bits (Z.to_nat 9) (Z.to_N len))
+                                (b_refs (mkB (b_bits b_empty ++ [false; true]) (b_refs b_empty)))))
+                  = Ok (mkB (([false; true] ++ to_bits (Z.to_nat 9) (Z.to_N len)) ++
+                             to_bits (Z.to_nat len) (Z.to_N v)) [])).
+    { destruct (Z.eqb_spec len 0) as [Hl0|Hne]; cbn [negb].
+      - subst len. apply cap_in_uint_elim in Hv. change (2 ^ 0) with 1 in Hv.
+        assert (Hv0 : v = 0) by lia. subst v. reflexivity.
+      - rewrite (cap_nf_uint v len) by (try lia; try exact Hv; cbn [b_refs b_empty length]; lia).
+        rewrite cap_bits_fit by
+          (cbn [b_empty b_bits app length]; rewrite ?app_length, ?to_bits_length; cbn [length]; lia).
+        reflexivity. }
+    rewrite Hst. clear Hst.
     cbn [bind b_bits b_refs b_empty app].
     unfold b_end_cell. cbn [b_bits b_refs s_depth]. change (1024 <=? 0)%N with false. cbn [bind].
     unfold b_store_cell. cbn [length].
@@ -734,7 +749,8 @@ Proof.
   intros tag. cbv beta. destruct (tag =? 0); [apply cap_pfx_ret|].
   destruct (tag =? 1).
   - apply cap_pfx_bind; [apply cap_pfx_uint|]. intros len. cbv beta.
-    apply cap_pfx_bind; [apply cap_pfx_uint|]. intros v. apply cap_pfx_ret.
+    apply cap_pfx_bind; [|intros v; apply cap_pfx_ret].
+    destruct (len =? 0); cbn [negb]; [apply cap_pfx_ret|apply cap_pfx_uint].
   - apply cap_pfx_bind; [apply cap_pfx_bit|]. intros anyc. cbv beta.
     apply cap_pfx_bind.
     + destruct anyc; [|apply cap_pfx_ret].
